@@ -1,5 +1,6 @@
 import ScsiVerif.Driver.PVText
 import ScsiVerif.Std.DataIn
+import ScsiVerif.Std.DataIn2
 import ScsiVerif.Std.DataOut
 import ScsiVerif.Model.Formats.Encode
 /-!
@@ -21,6 +22,16 @@ def valsOfPV : PV → Vals
     | some (.bytes b) => beValue b
     | _ => 0
   | _ => fun _ => 0
+
+def pvBytes (v : PV) (k : String) : List Nat :=
+  match v with
+  | .dict d => (match PDict.get? d k with | some (.bytes b) => b | _ => [])
+  | _ => []
+
+def pvList (v : PV) (k : String) : List PV :=
+  match v with
+  | .dict d => (match PDict.get? d k with | some (.list l) => l | _ => [])
+  | _ => []
 
 def showField (g : DField) : String :=
   g.key ++ "/" ++ toString g.byte ++ "/" ++ toString g.msb ++ "/" ++ toString g.width
@@ -57,6 +68,34 @@ def stdOp (toks : List String) : Option String :=
         | some (.list l) => l.map (fun x => match x with | .int n => n | _ => 0)
         | _ => []
       pure ("ok " ++ showBytes (encReadKeys gen keys))
+    | _ => none
+  | ["stdenc", "reportpriority", pv] => do
+    -- [{current_priority=…, rtpi=…, adlen=…, transport_id=x…}, …]
+    match ← PVText.parsePV pv with
+    | .list ds => pure ("ok " ++ showBytes (encReportPriority (ds.map (fun d => (valsOfPV d, pvBytes d "transport_id")))))
+    | _ => none
+  | ["stdenc", "rtpg", pv] => do
+    -- {groups=[{…tpg fields…, ports=[{relative_target_port_id=…}, …]}, …]} ; with ext={format_type=1, implicit_transition_time=…} the extended header format
+    match ← PVText.parsePV pv with
+    | .dict d =>
+      let gs := (pvList (.dict d) "groups").map (fun g => (valsOfPV g, (pvList g "ports").map valsOfPV))
+      match PDict.get? d "ext" with
+      | some h => pure ("ok " ++ showBytes (encRtpgExt (valsOfPV h) gs))
+      | none => pure ("ok " ++ showBytes (encRtpg gs))
+    | _ => none
+  | ["stdenc", fmt, pv] => do
+    -- modesense6 / modesense10: {header={…}, bd=x…, page={sub=i0|i1, header={…}, body=x…}}
+    if fmt != "modesense6" && fmt != "modesense10" then none else
+    match ← PVText.parsePV pv with
+    | .dict d =>
+      let hv := match PDict.get? d "header" with | some h => valsOfPV h | none => fun _ => 0
+      let bd := pvBytes (.dict d) "bd"
+      let pg := match PDict.get? d "page" with | some p => p | none => .dict []
+      let pvh := match pg with | .dict pd => (match PDict.get? pd "header" with | some h => valsOfPV h | none => fun _ => 0) | _ => fun _ => 0
+      let body := pvBytes pg "body"
+      let sub := match pg with | .dict pd => (match PDict.get? pd "sub" with | some (.int 1) => true | _ => false) | _ => false
+      let page := if sub then encModeSubPage pvh body else encModePage0 pvh body
+      pure ("ok " ++ showBytes (if fmt == "modesense6" then encModeSense6 hv bd page else encModeSense10 hv bd page))
     | _ => none
   -- mar <builder> <PV> : model of the library's marshall routines (Model/Formats/Encode.lean)
   | ["mar", name, pv] => do
